@@ -54,8 +54,9 @@ class C03(Prop):
             sig['what'] = 'crash'
             return sig
         # which fields of the agreement line differ
-        fa = dict(f.split('=', 1) for f in a.split(' ')[1:] if '=' in f)
-        fb = dict(f.split('=', 1) for f in b.split(' ')[1:] if '=' in f)
+        import re
+        fa = dict(re.findall(r'(\w+)=(\[[^\]]*\]|\S+)', a))
+        fb = dict(re.findall(r'(\w+)=(\[[^\]]*\]|\S+)', b))
         sig['fields'] = sorted(k for k in set(fa) | set(fb) if fa.get(k) != fb.get(k))
         # the latest mutation before the line
         for j in range(i - 1, -1, -1):
